@@ -99,5 +99,22 @@ def run(ctx):
             ctx.ob('2g stale-pending-item-discarded', 'K1-must-pass', ii.path,
                    'when the record id changed since the pending tree item was fetched, the item is discarded on every path before it can be returned (no extra condition)', bool(clears) and w is None,
                    'clear sites %s; path from the changed-id edge to the use: %s' % (clears, lib.short_path(ii, w) if w else ''))
+    # the iterator walks the tree under the log-overlay read lock
+    for fn, callee in (("btree::iter::BTreeIterator::<'a>::seek", "btree::iter::BTreeIterator::<'a>::seek_backend"),
+                       ("btree::iter::BTreeIterator::<'a>::seek_to_last", "btree::iter::BTreeIterator::<'a>::seek_backend_to_last"),
+                       ("btree::iter::BTreeIterator::<'a>::iter_inner", "btree::iter::BTreeIterator::<'a>::next_backend")):
+        b = ctx.body(fn)
+        if b:
+            sites = b.call_sites(callee)
+            ctx.ob('2h walk-anchor %s' % fn, 'anchor', fn, 'the iterator entry calls its tree walk once', len(sites) == 1, str(sites))
+            for s2 in sites:
+                lib.held_at(ctx, '2i tree-walk-under-log-read-lock %s' % fn, b, s2, '.BTreeIterator.log',
+                            'the multi-node tree walk runs with the log-overlay read guard held (no record can be published between two node fetches)')
+                a = b.term(s2)['a']
+                sl = set()
+                for x in a:
+                    if op_place(x):
+                        sl |= backward_slice(b, [op_place(x)]).calls
+                ctx.ob('2j record-id-read-under-same-lock %s' % fn, 'K4-provenance', fn, 'the record id handed to the walk is read from the locked overlay (LogOverlays::last_record_id)', any(c.endswith('::last_record_id') for c in sl), '')
     # 3. read layering (tree arm)
     shared.read_layering(ctx, '3')
